@@ -737,7 +737,7 @@ def rule_k15(repo):
     """A derivation is sound only if what a step cites was derived before it: the scoping predicate and the
     identifier-equals-position discipline of the checker (C02.P10, C02.P11) are part of the kernel's argument."""
     from .c02 import rule_p10, rule_p11
-    res = RuleResult('C01.K15', 'a step can only cite lines that were checked before it: scoping predicate and position discipline', floor=3)
+    res = RuleResult('C01.K15', 'a step can only cite lines that were checked before it: scoping predicate and position discipline', floor=2)
     for r in (rule_p10(repo), rule_p11(repo)):
         for i in r.instances:
             res.add(i.key, i.ok, i.detail, i.loc)
